@@ -236,7 +236,9 @@ JudgeFault(stb, ev) ==
 Judge(stb, ev) ==
   LET a == ev.act IN
   IF ~Applicable(stb, a)
-  THEN [st |-> stb, bad |-> TRUE, viol |-> {V1(<<"T00">>, "not_applicable")}]
+  THEN (* the exploration model reached this action through a state the implementation (legitimately or not) is not in: *)
+       (* nothing can be judged here or below; reported as information (T01), never as a verdict                     *)
+       [st |-> stb, bad |-> TRUE, viol |-> {V1(<<"T01">>, "not_applicable")}]
   ELSE IF ev.res = "driver_error"
   THEN [st |-> stb, bad |-> TRUE, viol |-> {V1(<<"T00">>, "driver_error")}]
   ELSE IF IsFault(ev) THEN JudgeFault(stb, ev)
@@ -248,6 +250,8 @@ Judge(stb, ev) ==
       stOk == CASE x.lat = "exact"  -> (\A w \in Vecs : VecObsOk(x.st.v[w], post[w])) /\ post.ext = x.st.ext
                 [] x.lat = "forget" -> ForgetOk(stb, a, x, post)
                 [] x.lat = "panic"  -> PanicOk(stb, a, ev) /\ (\A w \in Vecs : post[w].hk = x.st.v[w].h.k)
+      heldOk == x.lat # "exact" \/ (\A w \in Vecs : x.st.v[w].h.k = "tmp" =>
+                   post[w].held = << <<x.st.v[w].h.held[1], x.st.v[w].h.held[2], 1>> >>)
       resOk  == ev.res = x.res
       retOk  == x.lat # "exact" \/ ev.res # "ok" \/ ev.ret = x.ret
       (* a clone_empty probe destroys exactly what it created (fresh values and their clones) *)
@@ -265,7 +269,9 @@ Judge(stb, ev) ==
       \cup (IF ~wf     THEN {V1(<<"C03">> \o P, "single_place")} ELSE {})
       \cup (IF x.lat = "exact" /\ ~stOk /\ ~BagEq(ObservedIds(post), ExpectedIds(x.st))
             THEN {V1(<<"C03">> \o P, "elements_lost_or_duplicated")} ELSE {})
-      \cup (IF ~retOk  THEN {V1(P \o (IF a.op \in {"get", "mutate", "hmutate", "iter_next"} THEN <<"C13">> ELSE <<>>), "returned")} ELSE {})
+      \cup (IF ~heldOk THEN {V1(<<"C13">> \o P, "handle_reports_true")} ELSE {})
+      \cup (IF ~retOk  THEN {V1(P \o (IF a.op \in {"get", "mutate", "hmutate", "iter_next", "pop_begin", "remove_begin", "swap_remove_begin", "consume"}
+                                      THEN <<"C13">> ELSE <<>>), "returned")} ELSE {})
       \cup (IF ~dropOk THEN {V1(<<"C03">> \o P, "drops_match")} ELSE {})
       \cup (IF ~dropLive THEN {V1(<<"C03">> \o P, "drop_once")} ELSE {})
       \cup (IF ~cloneOk THEN {V1(P \o <<"C03">>, "clones_match")} ELSE {})
